@@ -319,7 +319,7 @@ def analyse(args):
         # discharge: entry by entry through the division-free normal form, then the general solver
         from symx import ratnorm
         bad = None
-        budget = float(os.environ.get('VERIF_C01_PROGRAM_BUDGET_S', '600' if os.environ.get('VERIF_TIER') == 'thorough' else '150'))
+        budget = float(os.environ.get('VERIF_C01_PROGRAM_BUDGET_S', '300' if os.environ.get('VERIF_TIER') == 'thorough' else '150'))
         for q, wh in zip(neqs, where):
             if time.time() - t0 > budget:
                 # wall budget per program: the remaining entries stay undecided (never counted as holding)
@@ -516,7 +516,7 @@ def main():
     run.out_of_scope += ['random programs that the solver does not decide within its budget are listed (undecided_random_programs) and not counted', 'that gcc/Cython/the loader accept the generated module (exercised only by the replay of violations)', 'boundary and surface forms, derivatives of physical input fields (listed as unsupported, not counted)',
                          'on-demand (bbox) variants', 'rounding, -ffast-math']
     corpus = [['corpus', name] for name, _ in gen.corpus(vf)]
-    ngram = 60 if not thorough else 600
+    ngram = 60 if not thorough else 240
     base = 1000003 * run.seed
     progs = corpus + [['rand', base + k, 2 if k % 4 else 1] for k in range(ngram)]
     jobs = [(spec, (k % 3), None) for k, spec in enumerate(progs)]
